@@ -20,10 +20,23 @@ def sh(cmd, cwd=None, env=None, timeout=3600):
     return p.returncode, p.stdout
 
 
+ROUND = 1
+
+
+def source_dir(pid, k):
+    """round 1: /tmp/wt-<PID>/seeded/<k> -> seed <PID>-<k>;  round r: /tmp/wt<r>-<PID>/seeded/<k> -> seed <PID>-<k + 2(r-1)>"""
+    base = "/tmp/wt-%s" % pid if ROUND == 1 else "/tmp/wt%d-%s" % (ROUND, pid)
+    return os.path.join(base, "seeded", str(k))
+
+
+def seed_index(k):
+    return k + 2 * (ROUND - 1)
+
+
 def evaluate(pid, k, tier, also):
-    sd = os.path.join("/tmp/wt-%s" % pid, "seeded", str(k))
+    sd = source_dir(pid, k)
     if not os.path.exists(os.path.join(sd, "patch.diff")):
-        sd = os.path.join(VERIF, "seeded", "%s-%d" % (pid, k))
+        sd = os.path.join(VERIF, "seeded", "%s-%d" % (pid, seed_index(k)))
         if not os.path.exists(os.path.join(sd, "patch.diff")):
             return None
     import tempfile
@@ -42,7 +55,7 @@ def evaluate(pid, k, tier, also):
 
 def _evaluate_in(wt, sd, pid, k, tier, also, head):
     env = dict(os.environ, PYTHONPATH=wt)
-    out = {"property": pid, "k": k, "repo_head": head[:7]}
+    out = {"property": pid, "k": seed_index(k), "repo_head": head[:7]}
     rc, o = sh("git apply %s" % os.path.join(sd, "patch.diff"), cwd=wt)
     if rc != 0:
         out["error"] = "patch does not apply: " + o[-300:]
@@ -71,9 +84,12 @@ def _evaluate_in(wt, sd, pid, k, tier, also, head):
 
 
 def main():
+    global ROUND
     args = sys.argv[1:]
     tier = "quick"
     also = []
+    if "--round" in args:
+        i = args.index("--round"); ROUND = int(args[i + 1]); del args[i:i + 2]
     if "--tier" in args:
         i = args.index("--tier"); tier = args[i + 1]; del args[i:i + 2]
     if "--also" in args:
@@ -84,8 +100,8 @@ def main():
             if r is None:
                 continue
             print(json.dumps(r), flush=True)
-            sd = "/tmp/wt-%s/seeded/%d" % (pid, k)
-            dst = os.path.join(VERIF, "seeded", "%s-%d" % (pid, k))
+            sd = source_dir(pid, k)
+            dst = os.path.join(VERIF, "seeded", "%s-%d" % (pid, seed_index(k)))
             os.makedirs(dst, exist_ok=True)
             if os.path.exists(os.path.join(sd, "patch.diff")):
                 for f in ("patch.diff", "demo.py"):
